@@ -41,6 +41,7 @@ REQUIRED_COUNTERS = [
     "verdicts.accept", "verdicts.reject", "model.agrees", "doc.cross_file", "doc.chained_ref", "doc.same_title_same_body",
     "doc.same_title_other_body", "doc.untitled_object", "docstrings.seen", "source_kw.seen", "imports.maybe",
     "cli.subprocess", "class_count.checked", "description.hostile", "doc.sibling_variant_same_process",
+    "dsl_modules", "dsl_modules.classes_equal",
 ]
 VOCAB_TRIGGER = None
 
@@ -407,9 +408,65 @@ def cli_check(ctx, directory, path, text, case, finding):
             pass
 
 
+def dsl_module(ctx, sut, fpm, idx):
+    """The generator is also used on trees written in the DSL: the module must execute with the imports
+    it declares and define classes equal to the originals (covers shapes no document can express, e.g. an
+    empty tuple of items, shared elements).  Subclassing is left out on purpose: no schema document yields a
+    subclass, so the statement does not cover it (observed and noted in DESIGN.md: the orderer does not
+    count a base class as a dependency, so `class K3(K2)` may be emitted before K2)."""
+    import random as _random  # pylint: disable=import-outside-toplevel
+
+    from vlib import gen_dsl  # pylint: disable=import-outside-toplevel
+
+    rng = _random.Random(f"dsl/{ctx.seed}/{ctx.stream}/{idx}")
+    gen = gen_dsl.Gen(rng, max_depth=2, share=0.2, renames=0.4, inheritance=0.0, defaults=0.2)
+    spec = gen.klass(2)
+    if rng.random() < 0.5:
+        # properties aimed at the import inference: bare List, nested Lists, Any, Union, Maybe
+        spec["props"]["tuple_closed"] = {"el": {"t": "Array", "items": [], "kw": {"additionalItems": False}},
+                                         "required": rng.random() < 0.5, "source": None}
+        if rng.random() < 0.5:
+            spec["props"] = {"tuple_closed": spec["props"]["tuple_closed"]}
+    try:
+        root = gen_dsl.build(spec)
+    except Exception as exc:  # pylint: disable=broad-except
+        ctx.count("build_failed." + type(exc).__name__)
+        return
+    ctx.evaluation()
+    ctx.count("dsl_modules")
+    case = {"spec": spec}
+    try:
+        text = sut.serialize_python(root)
+        namespace = {}
+        exec(compile(text, "<generated>", "exec"), namespace)  # pylint: disable=exec-used
+    except Exception as exc:  # pylint: disable=broad-except
+        from vlib.checks.c12 import f22_trigger  # pylint: disable=import-outside-toplevel
+
+        ctx.witness("dsl_module_does_not_execute", case,
+                    f"{type(exc).__name__}: {exc!r}; text={text[:300] if 'text' in dir() else ''!r}"[:600],
+                    finding=None)
+        _ = f22_trigger
+        return
+    for problem in ast_monitor(text):
+        ctx.witness("module_structure", case, problem)
+        return
+    classes = {c.__name__: c for c in sut.get_object_classes(root)}
+    for name, cls in classes.items():
+        other = namespace.get(name)
+        if other is None or not (other == cls and cls == other) or fpm.fp_tree(other) != fpm.fp_tree(cls):
+            mangled = any(attr.startswith("__") and not attr.endswith("__") for attr in (cls.properties or {}))
+            ctx.witness("dsl_class_differs", case, f"class {name} of the executed module differs from the original",
+                        finding="F31" if mangled else None)
+            return
+    ctx.count("dsl_modules.classes_equal")
+
+
 def run_shard(ctx):
     from vlib import fingerprint as fpm  # pylint: disable=import-outside-toplevel
     from vlib import sut  # pylint: disable=import-outside-toplevel
+
+    for idx in range(ctx.params["docs"] * 2):
+        dsl_module(ctx, sut, fpm, idx)
 
     # documents are generated up front (generation never depends on what the library did), then handled
     # in stream order - reversed in the mirror shard
@@ -428,6 +485,17 @@ def replay(case, ctx):
     from vlib import fingerprint as fpm  # pylint: disable=import-outside-toplevel
     from vlib import sut  # pylint: disable=import-outside-toplevel
 
+    if "spec" in case:
+        from vlib import gen_dsl  # pylint: disable=import-outside-toplevel
+
+        root = gen_dsl.build(case["spec"])
+        ctx.evaluation()
+        try:
+            text = sut.serialize_python(root)
+            exec(compile(text, "<generated>", "exec"), {})  # pylint: disable=exec-used
+        except Exception as exc:  # pylint: disable=broad-except
+            ctx.witness("dsl_module_does_not_execute", case, f"{type(exc).__name__}: {exc!r}"[:300])
+        return
     # re-run the monitors on the recorded file set (fresh file names: json_ref_dict caches by URI)
     suffix = f"r{os.getpid()}"
     rename = {name: name.replace(".json", f"_{suffix}.json") for name in case["files"]}
